@@ -39,6 +39,10 @@ def run_pairs(ctx):
         dict(mode="shift", dev="ring", field=0.6, shift=(1.0, 1.0), steps=100, warm=30),
         dict(mode="shift", dev="tee", field=0.2, current=4.0, shift=(0.4, -0.6), steps=100, warm=30),
         dict(mode="shift", dev="cross", field=0.3, current=3.0, shift=(0.1, 0.7), steps=80, warm=20, k=7),
+        # time-dependent applied potential (field ramped over many steps; the link variables are refreshed during the run)
+        dict(mode="shift", dev="film", field=0.0, ramp=(0.0, 0.1, 2.0), shift=(1.0, 1.0), steps=128, warm=0, k=8),
+        dict(mode="shift", dev="bar", field=0.0, current=2.0, ramp=(0.05, 0.15, 3.0), shift=(1.2, -0.8), steps=160, warm=10, k=16),
+        dict(mode="translate", dev="barhole", field=0.0, current=2.0, ramp=(0.0, 0.3, 1.0), offset=(3.0, -1.5), steps=64, warm=0, k=8),
         # with screening: the self-consistency loop (Polyak iteration, convergence criterion) must not see the gauge either;
         # fixed step, so the clean twins follow the same iteration path (measured: <= 2e-10 of the scale, equal iteration counts)
         dict(mode="shift", dev="film", field=0.4, shift=(0.6, -0.4), steps=20, warm=6, k=4, screening=True, screening_tol=1e-3),
@@ -57,6 +61,8 @@ def run_pairs(ctx):
                 a.update(mode="translate", offset=(rnd.randint(-64, 64) / 8, rnd.randint(-64, 64) / 8))
             else:
                 a.update(mode="shift", shift=(round(rnd.uniform(-1, 1), 3), round(rnd.uniform(-1, 1), 3)))
+            if n % 3 == 1:
+                a.update(ramp=(round(rnd.uniform(0.0, 0.1), 3), round(rnd.uniform(0.1, 0.5), 3), rnd.choice([0.5, 1.0, 2.0, 3.0])), field=0.0)
             if n % 3 == 0:
                 # (not exactly at rest: see REST_PAIR)
                 a.update(screening=True, screening_tol=rnd.choice([1e-3, 1e-4, 1e-6]), steps=rnd.choice([12, 24, 40]), warm=rnd.choice([0, 4, 8]), k=4,
@@ -73,7 +79,7 @@ REST_PAIR = dict(mode="shift", dev="film", field=0.0, shift=(0.5, 0.3), steps=12
 
 
 def describe(a):
-    return "%s/%s/B=%s/I=%s/%s%s" % (a["mode"], a["dev"], a["field"], a.get("current", "-"),
+    return "%s/%s/B=%s/I=%s/%s%s" % (a["mode"], a["dev"], ("ramp%s" % (a["ramp"],)) if a.get("ramp") else a["field"], a.get("current", "-"),
                                     ("offset=%s" % (a["offset"],)) if a["mode"] == "translate" else ("c=%s" % (a["shift"],)),
                                     "/screening tol=%g" % a["screening_tol"] if a.get("screening") else "")
 
@@ -147,6 +153,8 @@ def run(ctx):
     tw = []
     for a, rr in zip(pairs, runs):
         tw.append({"tol": TOL, "minruns": 2, "ev": rr["ev"], "label": describe(a)})
+        if a.get("ramp") and not rr["info"].get("raised") and rr["info"].get("distinct_applied_potentials", 0) < 3:
+            raise core.MachineryFailure(f"C04: the applied potential did not change during {describe(a)} (vacuous ramp)")
         if a.get("screening"):
             if not rr["ev_exact"]:
                 raise core.MachineryFailure(f"C04: no screening_iterations record for {describe(a)}")
